@@ -216,6 +216,14 @@ def non_geometry_edits(spec, ds):
             yield "memory_layout", replace_variable(
                 ds, name, xarray.Variable(var.dims, numpy.asfortranarray(var.values), var.attrs, var.encoding))
             break
+    for name in c05.geometry_names(spec):
+        if name in ds.variables and ds[name].ndim >= 1 and "dtype" not in ds[name].encoding:
+            # the on-disk type requested as a string (how the xarray documentation writes
+            # encodings), naming the very type the values already have
+            edited = ds.copy(deep=False)
+            edited[name].encoding["dtype"] = str(ds[name].dtype)
+            yield "encoding_dtype_given_as_string", edited
+            break
     order = list(ds.data_vars)[::-1]
     yield "variable_order", xarray.Dataset(
         data_vars={k: ds.variables[k] for k in order},
